@@ -440,6 +440,17 @@ def family(tier):
             items.append(("H", u))
         if k % 9 == 0:
             items.append(("H", F.with_empty_edge(s)))
+        if k % 5 == 0:
+            # label *types* other than int / str: floats, tuples, mixed types, for node labels and edge IDs
+            m = len(s["edges"])
+            for j, (_, nm) in enumerate(F.exotic_label_maps(s["nodes"])):
+                eids = [[i + 0.5 for i in range(m)], [("e", i) for i in range(m)], ["a", 7, (1, 2), 2.5, "b", 11][:m],
+                        list(range(m))][j % 4]
+                if j % 4 == 2 and len({frozenset(mm) for _, mm in s["edges"]}) < m:
+                    # merging duplicates takes "the first of the sorted duplicate IDs" (documented): IDs of duplicates must
+                    # be mutually orderable, so mixed-type IDs go with duplicate-free inputs only
+                    eids = list(range(m))
+                items.append(("H", F.relabel(s, node_map=nm, edge_ids=eids)))
     red = base[::17][:14]
     for a, b in itertools.product(red, repeat=2):
         b2 = F.relabel(b, node_map={1: 1, 2: 5, 3: 6, 4: 2})
